@@ -24,9 +24,31 @@ def comprehension(interp, xs, gens, i, child, emit):
     raise Unsupported('comprehension over symbolic-length sequence must be a plain list comprehension')
 
 
+def copy(xs, mutable=True):
+    """`list(xs)` / a snapshot of xs: same elements (the very same element objects), own identity.
+    A *mutable* copy is a cell: append / extend / insert replace its contents in place (see `method`)."""
+    c = SList(xs.length, xs.elem, xs.uid)
+    c.cache = xs.cache
+    c.parts = list(xs.parts) if xs.parts is not None else [('base', xs)]
+    c.immutable = not mutable
+    return c
+
+
+def frozen(v):
+    """operands captured by a derived sequence must not change afterwards: snapshot mutable ones"""
+    if isinstance(v, SList) and not v.immutable:
+        return copy(v, mutable=False)
+    return v
+
+
+def _replace_contents(xs, new):
+    xs.length, xs.elem, xs.uid, xs.cache, xs.parts = new.length, new.elem, new.uid, new.cache, new.parts
+
+
 def map_comprehension(interp, node, frame, xs):
     """ListComp node with a single generator over SList ``xs`` and no conditions."""
     from .interp import Frame, PyRaise, _comp_info
+    xs = frozen(xs)
     g = node.generators[0]
     st = interp.st
     uid = _fresh_uid(interp, xs.uid + '.map')
@@ -58,6 +80,7 @@ def slice_(interp, xs, sl):
     st = interp.st
     if sl.step is not None and sl.step != 1:
         raise Unsupported('slice step on symbolic sequence')
+    xs = frozen(xs)
     n = xs.length
 
     def norm(v, default):
@@ -82,6 +105,11 @@ def slice_(interp, xs, sl):
 def concat(interp, a, b):
     """a + b where at least one is an SList; the other may be a concrete list."""
     st = interp.st
+    a, b = frozen(a), frozen(b)
+    if not isinstance(a, SList):
+        a = list(a)
+    if not isinstance(b, SList):
+        b = list(b)
 
     def length(v):
         return v.length if isinstance(v, SList) else z3.IntVal(len(v))
@@ -141,7 +169,24 @@ def method(interp, xs, name, args, kwargs):
     if name == '__len__':
         return wrap(xs.length)
     if name == 'copy':
-        return xs
+        return copy(xs)
     if name == '__iter__':
         return models.SIter(xs, 0)
+    if name in ('append', 'extend', 'insert'):
+        if xs.immutable:
+            raise Unsupported('%s on an immutable / input sequence of symbolic length' % name)
+        snap = copy(xs, mutable=False)
+        if name == 'append':
+            new = concat(interp, snap, [args[0]])
+        elif name == 'extend':
+            other = args[0]
+            if isinstance(other, (SOpt, SChoice)):
+                other = interp.resolve(other)
+            new = concat(interp, snap, other if isinstance(other, SList) else list(interp.iterate(other)))
+        else:
+            if args[0] != 0 or isinstance(args[0], bool):
+                raise Unsupported('insert into a symbolic-length sequence other than at position 0')
+            new = concat(interp, [args[1]], snap)
+        _replace_contents(xs, new)
+        return None
     raise Unsupported('method %s on symbolic-length sequence' % name)
